@@ -1,4 +1,5 @@
 import MuduoVerif.Proofs.ClientOps
+import MuduoVerif.Proofs.ClientTrace
 /-!
 Monotonicity inside one loop iteration: every function the loop runs only appends to the trace
 and to the functor queue, never un-destroys or revives a connection, never takes a new reference
@@ -15,13 +16,37 @@ structure Grow (c c' : C) : Prop where
            x'.userRef = x.userRef ∧ x'.closeCb = x.closeCb
   alive : c'.clientAlive = c.clientAlive
   hold : ∀ k x, findIn c.conns k = some x → x.st = .disconnected → ∀ t ∈ c'.pending, t.holds k = true → t ∈ c.pending
-  nostop : .stopInLoop ∈ c'.pending → .stopInLoop ∈ c.pending
+  /-- nobody stops the connector on behalf of a client that is gone -/
+  nostop : c.clientAlive = false → .stopInLoop ∈ c'.pending → .stopInLoop ∈ c.pending
+  /-- the operations registered for the UP callback are consumed front to back -/
+  hsuf : c'.hooksUp <:+ c.hooksUp
+  /-- if `disconnect()` was the next operation of the UP callback and the callback ran, then the connection it
+  reported has its half-close queued (and exists) -/
+  hup : ∀ rest, c.hooksUp = HookOp.disconnect :: rest → c'.hooksUp ≠ c.hooksUp →
+          ∃ k, Ev.up k ∈ c'.trace ∧ Ev.up k ∉ c.trace ∧ Task.shutdownInLoop k ∈ c'.pending ∧
+            ∃ x, findIn c'.conns k = some x ∧ x.destroyed = false
+  /-- an UP report runs the callback: it consumes the next registered operation (if there is one) -/
+  upq : ∀ k, Ev.up k ∈ c'.trace → Ev.up k ∉ c.trace → c.hooksUp = [] ∨ c'.hooksUp ≠ c.hooksUp
+
+/-- a step that reports no UP and leaves the callback's operations alone -/
+theorem Grow.quiet {c c' : C} (tr : c.trace <+: c'.trace) (pend : c.pending <+: c'.pending)
+    (conn : ∀ k x, findIn c.conns k = some x → ∃ x', findIn c'.conns k = some x' ∧
+           x'.destroyed = x.destroyed ∧ (x.st = .disconnected → x'.st = .disconnected) ∧
+           x'.userRef = x.userRef ∧ x'.closeCb = x.closeCb)
+    (alive : c'.clientAlive = c.clientAlive)
+    (hold : ∀ k x, findIn c.conns k = some x → x.st = .disconnected → ∀ t ∈ c'.pending, t.holds k = true → t ∈ c.pending)
+    (nostop : c.clientAlive = false → .stopInLoop ∈ c'.pending → .stopInLoop ∈ c.pending)
+    (hq : c'.hooksUp = c.hooksUp) (hnu : ∀ k, Ev.up k ∈ c'.trace → Ev.up k ∈ c.trace) : Grow c c' :=
+  ⟨tr, pend, conn, alive, hold, nostop, by rw [hq]; exact List.suffix_refl _, fun _ _ h => absurd hq h,
+   fun k h1 h2 => absurd (hnu k h1) h2⟩
 
 theorem Grow.rfl' (c : C) : Grow c c :=
-  ⟨List.prefix_refl _, List.prefix_refl _, fun _ x h => ⟨x, h, rfl, id, rfl, rfl⟩, rfl, fun _ _ _ _ _ ht _ => ht, id⟩
+  Grow.quiet (List.prefix_refl _) (List.prefix_refl _) (fun _ x h => ⟨x, h, rfl, id, rfl, rfl⟩) rfl
+    (fun _ _ _ _ _ ht _ => ht) (fun _ => id) rfl (fun _ => id)
 
 theorem Grow.trans {a b c : C} (h1 : Grow a b) (h2 : Grow b c) : Grow a c := by
-  refine ⟨h1.tr.trans h2.tr, h1.pend.trans h2.pend, ?_, h2.alive.trans h1.alive, ?_, fun h => h1.nostop (h2.nostop h)⟩
+  refine ⟨h1.tr.trans h2.tr, h1.pend.trans h2.pend, ?_, h2.alive.trans h1.alive, ?_,
+    fun ha h => h1.nostop ha (h2.nostop (h1.alive.trans ha) h), h2.hsuf.trans h1.hsuf, ?_, ?_⟩
   · intro k x hx
     obtain ⟨x1, hx1, e1, e2, e3, e4⟩ := h1.conn k x hx
     obtain ⟨x2, hx2, f1, f2, f3, f4⟩ := h2.conn k x1 hx1
@@ -29,14 +54,38 @@ theorem Grow.trans {a b c : C} (h1 : Grow a b) (h2 : Grow b c) : Grow a c := by
   · intro k x hx hst t ht hh
     obtain ⟨x1, hx1, _, e2, _, _⟩ := h1.conn k x hx
     exact h1.hold k x hx hst t (h2.hold k x1 hx1 (e2 hst) t ht hh) hh
+  · intro rest hh hne
+    by_cases hb : b.hooksUp = a.hooksUp
+    · obtain ⟨k, u1, u2, u3, x, u4, u5⟩ := h2.hup rest (hb.trans hh) (by rw [hb]; exact hne)
+      exact ⟨k, u1, fun h => u2 (h1.tr.subset h), u3, x, u4, u5⟩
+    · obtain ⟨k, u1, u2, u3, x, u4, u5⟩ := h1.hup rest hh hb
+      obtain ⟨x', v1, v2, _⟩ := h2.conn k x u4
+      exact ⟨k, h2.tr.subset u1, u2, h2.pend.subset u3, x', v1, v2.trans u5⟩
+  · intro k hk hnk
+    by_cases hb : b.hooksUp = a.hooksUp
+    · by_cases hkb : Ev.up k ∈ b.trace
+      · rcases h1.upq k hkb hnk with h | h
+        · exact .inl h
+        · exact absurd hb h
+      · rcases h2.upq k hk hkb with h | h
+        · exact .inl (hb ▸ h)
+        · exact .inr (by rw [← hb]; exact h)
+    · right
+      intro e
+      -- `c.hooksUp` is a suffix of `b.hooksUp`, a proper suffix of `a.hooksUp`
+      have l1 := h2.hsuf.length_le
+      have l2 := h1.hsuf.length_le
+      have : b.hooksUp.length = a.hooksUp.length := by rw [e] at l1; omega
+      exact hb (h1.hsuf.eq_of_length this)
 
-/-- same connections, the queue grows by functors that hold no connection -/
+/-- same connections, the queue grows by functors that hold no connection, no UP is reported -/
 theorem Grow.frame {c c' : C} (ht : c.trace <+: c'.trace) (hc : c'.conns = c.conns) (ha : c'.clientAlive = c.clientAlive)
-    (hp : ∃ d, c'.pending = c.pending ++ d ∧ ∀ t ∈ d, t ≠ .stopInLoop ∧ ∀ k, t.holds k = false) : Grow c c' := by
+    (hp : ∃ d, c'.pending = c.pending ++ d ∧ ∀ t ∈ d, t ≠ .stopInLoop ∧ ∀ k, t.holds k = false)
+    (hq : c'.hooksUp = c.hooksUp) (hnu : ∀ k, Ev.up k ∈ c'.trace → Ev.up k ∈ c.trace) : Grow c c' := by
   obtain ⟨d, hd, hnh⟩ := hp
-  refine ⟨ht, ⟨d, hd.symm⟩, ?_, ha, ?_, ?_⟩
+  refine Grow.quiet ht ⟨d, hd.symm⟩ ?_ ha ?_ ?_ hq hnu
   rotate_left 2
-  · intro h; rw [hd] at h
+  · intro _ h; rw [hd] at h
     rcases List.mem_append.mp h with h | h
     · exact h
     · exact absurd rfl (hnh _ h).1
@@ -123,15 +172,202 @@ theorem reapConnector_grow (c : C) : Grow c (reapConnector c) := by
   repeat' split
   all_goals first | exact Grow.rfl' c | grow_frame
 
-theorem newConnection_grow (c : C) (k : Nat) (hn : findIn c.conns k = none) : Grow c (newConnection c k) := by
-  unfold newConnection die
+/-! ### the user's connection callback -/
+
+theorem userDisconnect_grow (c : C) : Grow c (userDisconnect c) := by
+  unfold userDisconnect
+  simp only
   split
-  · refine ⟨by simp, List.prefix_refl _, ?_, rfl, fun _ _ _ _ _ ht _ => ht, id⟩
-    intro j x hx
-    refine ⟨x, ?_, rfl, id, rfl, rfl⟩
-    show findIn (c.conns ++ [{ sock := k }]) j = some x
-    rw [findIn_append_new _ rfl, hx]; simp
+  · rename_i j _
+    unfold connShutdown
+    split
+    · rename_i hcs
+      show Grow c { c with tConnect := false, conns := c.conns.map (updRec j toDisconnecting),
+                           pending := c.pending ++ [.shutdownInLoop j] }
+      refine Grow.quiet (List.prefix_refl _) (by simp) ?_ rfl ?_ ?_ rfl (fun _ => id)
+      · intro k x hx
+        refine ⟨updRec j toDisconnecting x, ?_, ?_, ?_, ?_, ?_⟩
+        · show findIn (c.conns.map (updRec j toDisconnecting)) k = _
+          rw [findIn_upd j k toDisconnecting (fun _ => rfl), hx]; rfl
+        · unfold updRec toDisconnecting; split <;> simp
+        · intro hd
+          have hne : ¬ x.sock = j := by
+            intro e
+            have : connSt { c with tConnect := false } j = x.st := by
+              rw [← e, (findIn_some hx).2]; simp [connSt, findConn_eq, hx]
+            rw [this, hd] at hcs; cases hcs
+          simp [updRec, hne, hd]
+        all_goals (unfold updRec toDisconnecting; split <;> simp)
+      · intro k x _ _ t ht hh
+        simp only [List.mem_append, List.mem_singleton] at ht
+        rcases ht with ht | rfl
+        · exact ht
+        · rw [holds_shutdown] at hh; cases hh
+      · intro _ h
+        simp only [List.mem_append, List.mem_singleton] at h
+        rcases h with h | h
+        · exact h
+        · cases h
+    · grow_frame
   · grow_frame
+
+/-- an operation of the connection callback on a live client -/
+theorem hookOp_grow (c : C) (j : Nat) (op : HookOp) (hal : c.clientAlive = true) :
+    Grow c (hookOp c j op) ∧ (hookOp c j op).hooksUp = c.hooksUp := by
+  cases op with
+  | disconnect =>
+    refine ⟨userDisconnect_grow c, ?_⟩
+    show (userDisconnect c).hooksUp = _
+    unfold userDisconnect connShutdown
+    simp only
+    repeat' split
+    all_goals rfl
+  | stop =>
+    refine ⟨?_, ?_⟩
+    · show Grow c (userStop c .loop)
+      unfold userStop connectorStop
+      simp only [stopDispatch]
+      unfold enqueue
+      refine Grow.quiet (by simp) (by simp) (fun _ x h => ⟨x, h, rfl, id, rfl, rfl⟩) rfl ?_ ?_ rfl (by simp)
+      · intro k x _ _ t ht hh
+        simp only [List.mem_append, List.mem_singleton] at ht
+        rcases ht with ht | rfl
+        · exact ht
+        · cases hh
+      · intro h; rw [hal] at h; cases h
+    · show (userStop c .loop).hooksUp = _
+      unfold userStop connectorStop
+      simp only [stopDispatch]
+      rfl
+  | connect =>
+    refine ⟨?_, ?_⟩
+    · show Grow c (userConnect c .loop)
+      unfold userConnect
+      simp only [startDispatch]
+      refine Grow.trans ?_ (startCycle_grow _)
+      grow_frame
+    · show (userConnect c .loop).hooksUp = _
+      unfold userConnect
+      simp only [startDispatch]
+      exact (startCycle_keeps _).2.2.2.1
+  | query =>
+    refine ⟨?_, rfl⟩
+    show Grow c (emit c _)
+    unfold emit; grow_frame
+
+theorem runHookDown_grow (c : C) (k : Nat) : Grow c (runHookDown c k) := by
+  unfold runHookDown
+  split
+  · rename_i hal
+    split
+    · exact Grow.rfl' c
+    · rename_i op rest _
+      have h0 : Grow c ({ c with hooksDown := rest } : C) := by grow_frame
+      exact h0.trans (hookOp_grow ({ c with hooksDown := rest } : C) k op hal).1
+  · exact Grow.rfl' c
+
+/-- the state in which the user's callback is told UP -/
+def estab (c : C) (k : Nat) : C :=
+  { c with sockSt := c.sockSt.set k .handedOver, conns := c.conns ++ [{ sock := k }], connection := some k,
+           ups := c.ups + 1, trace := c.trace ++ [.handedOver k, .up k] }
+
+theorem newConnection_eq (c : C) (k : Nat) (hal : c.clientAlive = true) :
+    newConnection c k = runHookUp (estab c k) k := by
+  unfold newConnection
+  rw [if_pos hal, if_pos gen_publishBeforeEstablish]
+  rfl
+
+theorem disconnect_in_estab (c : C) (k : Nat) (hn : findIn c.conns k = none) (rest : List HookOp) :
+    hookOp ({ estab c k with hooksUp := rest } : C) k .disconnect =
+      { estab c k with hooksUp := rest, tConnect := false,
+                       conns := (c.conns ++ [({ sock := k } : ConnRec)]).map (updRec k toDisconnecting),
+                       pending := c.pending ++ [.shutdownInLoop k] } := by
+  have hnew : findIn (c.conns ++ [({ sock := k } : ConnRec)]) k = some { sock := k } := by
+    rw [findIn_append_new _ rfl, hn]; simp
+  unfold hookOp userDisconnect connShutdown estab
+  simp only [connSt, findConn_eq, hnew, Option.map_some, Option.getD_some, if_true]
+  rfl
+
+/-- `TcpClient::newConnection`: hand-over, UP, and the user's callback inside it -/
+theorem newConnection_grow (c : C) (k : Nat) (hn : findIn c.conns k = none) (hnu : Ev.up k ∉ c.trace) :
+    Grow c (newConnection c k) := by
+  by_cases hal : c.clientAlive = true
+  · rw [newConnection_eq c k hal]
+    have hconn : ∀ j x, findIn c.conns j = some x → findIn (c.conns ++ [({ sock := k } : ConnRec)]) j = some x := by
+      intro j x hx; rw [findIn_append_new _ rfl, hx]; simp
+    have hnew : findIn (c.conns ++ [({ sock := k } : ConnRec)]) k = some { sock := k } := by
+      rw [findIn_append_new _ rfl, hn]; simp
+    unfold runHookUp
+    rw [if_pos (show (estab c k).clientAlive = true from hal)]
+    have hcases : c.hooksUp = [] ∨ ∃ op rest, c.hooksUp = op :: rest := by
+      cases c.hooksUp with
+      | nil => exact Or.inl rfl
+      | cons op rest => exact Or.inr ⟨op, rest, rfl⟩
+    rcases hcases with hh | ⟨op, rest, hh⟩
+    · rw [show (estab c k).hooksUp = [] from hh]
+      simp only
+      exact ⟨(by simp [estab]), List.prefix_refl _, fun j x hx => ⟨x, hconn j x hx, rfl, id, rfl, rfl⟩, rfl,
+        fun _ _ _ _ _ ht _ => ht, fun _ => id, List.suffix_refl _,
+        (fun rest e => by rw [hh] at e; cases e), fun _ _ _ => Or.inl hh⟩
+    · rw [show (estab c k).hooksUp = op :: rest from hh]
+      simp only
+      have hlen : rest ≠ c.hooksUp := by
+        rw [hh]; intro e'; have := congrArg List.length e'; simp at this
+      by_cases hop : op = .disconnect
+      · subst hop
+        -- `disconnect()` inside the UP callback: `connection_` is published, the connection is connected
+        rw [disconnect_in_estab c k hn rest]
+        refine ⟨(by simp [estab]), (by simp), ?_, rfl, ?_, ?_, (by show rest <:+ c.hooksUp; rw [hh]; exact List.suffix_cons _ _), ?_, ?_⟩
+        · intro j x hx
+          have hne : ¬ x.sock = k := by
+            intro e'
+            have := (findIn_some hx).2
+            rw [e'] at this; subst this; rw [hn] at hx; cases hx
+          refine ⟨x, ?_, rfl, id, rfl, rfl⟩
+          show findIn ((c.conns ++ [({ sock := k } : ConnRec)]).map (updRec k toDisconnecting)) j = some x
+          rw [findIn_upd k j toDisconnecting (fun _ => rfl), hconn j x hx]
+          simp [updRec, hne]
+        · intro j x _ _ t ht hh'
+          simp only [List.mem_append, List.mem_singleton] at ht
+          rcases ht with ht | rfl
+          · exact ht
+          · rw [holds_shutdown] at hh'; cases hh'
+        · intro _ h
+          simp only [List.mem_append, List.mem_singleton] at h
+          rcases h with h | h
+          · exact h
+          · cases h
+        · intro rest' _ _
+          refine ⟨k, (by simp [estab]), hnu, (by simp), updRec k toDisconnecting ({ sock := k } : ConnRec), ?_, ?_⟩
+          · show findIn ((c.conns ++ [({ sock := k } : ConnRec)]).map (updRec k toDisconnecting)) k = _
+            rw [findIn_upd k k toDisconnecting (fun _ => rfl), hnew]; rfl
+          · simp [updRec, toDisconnecting]
+        · intro _ _ _
+          exact Or.inr hlen
+      · have hE : Grow c ({ estab c k with hooksUp := rest } : C) := by
+          refine ⟨(by simp [estab]), List.prefix_refl _, fun j x hx => ⟨x, hconn j x hx, rfl, id, rfl, rfl⟩, rfl,
+            fun _ _ _ _ _ ht _ => ht, fun _ => id, (by show rest <:+ c.hooksUp; rw [hh]; exact List.suffix_cons _ _), ?_, ?_⟩
+          · intro rest' e'; rw [hh] at e'; cases e'; exact absurd rfl hop
+          · intro _ _ _
+            exact Or.inr hlen
+        exact hE.trans (hookOp_grow ({ estab c k with hooksUp := rest } : C) k op hal).1
+  · unfold newConnection
+    rw [if_neg hal]
+    unfold die; grow_frame
+
+theorem retry_noUp (c : C) (k : Nat) : ∀ j, Ev.up j ∈ (retry c k).trace → Ev.up j ∈ c.trace := by
+  unfold retry closeSock; simp only; repeat' split
+  all_goals simp
+
+theorem handleError_noUp (c : C) : ∀ j, Ev.up j ∈ (handleError c).trace → Ev.up j ∈ c.trace := by
+  unfold handleError die
+  split
+  · split
+    · simp only
+      rw [popSoErr_eq]
+      exact retry_noUp _ _
+    · simp
+  · exact fun _ h => h
 
 theorem handleError_grow (c : C) : Grow c (handleError c) := by
   unfold handleError die
@@ -144,7 +380,8 @@ theorem handleError_grow (c : C) : Grow c (handleError c) := by
     · grow_frame
   · exact Grow.rfl' c
 
-theorem handleWrite_grow (c : C) (hopen : ∀ k, c.chan = some k → findIn c.conns k = none) : Grow c (handleWrite c) := by
+theorem handleWrite_grow (c : C) (hopen : ∀ k, c.chan = some k → findIn c.conns k = none ∧ Ev.up k ∉ c.trace) :
+    Grow c (handleWrite c) := by
   unfold handleWrite die
   split
   · split
@@ -157,7 +394,7 @@ theorem handleWrite_grow (c : C) (hopen : ∀ k, c.chan = some k → findIn c.co
         split
         · refine Grow.trans ?_ (retry_grow _ _); grow_frame
         · split
-          · refine Grow.trans ?_ (newConnection_grow _ _ (hopen k hk)); grow_frame
+          · refine Grow.trans ?_ (newConnection_grow _ _ (hopen k hk).1 (hopen k hk).2); grow_frame
           · refine Grow.trans ?_ (closeSock_grow _ _); grow_frame
     · grow_frame
   · split
@@ -178,7 +415,7 @@ theorem handleError_chan (c : C) : (handleError c).chan = c.chan ∧ (handleErro
     · exact ⟨rfl, rfl⟩
   · exact ⟨rfl, rfl⟩
 
-theorem dispatchConnector_grow (c : C) (rev : Nat) (hopen : ∀ k, c.chan = some k → findIn c.conns k = none) :
+theorem dispatchConnector_grow (c : C) (rev : Nat) (hopen : ∀ k, c.chan = some k → findIn c.conns k = none ∧ Ev.up k ∉ c.trace) :
     Grow c (dispatchConnector c rev) := by
   unfold dispatchConnector
   split
@@ -189,7 +426,8 @@ theorem dispatchConnector_grow (c : C) (rev : Nat) (hopen : ∀ k, c.chan = some
       · split
         · refine (handleError_grow c).trans (handleWrite_grow _ ?_)
           intro k hk
-          rw [(handleError_chan c).1] at hk; rw [(handleError_chan c).2]; exact hopen k hk
+          rw [(handleError_chan c).1] at hk; rw [(handleError_chan c).2]
+          exact ⟨(hopen k hk).1, fun h => (hopen k hk).2 (handleError_noUp c k h)⟩
         · exact handleError_grow c
     · dsimp only
       split
@@ -199,40 +437,65 @@ theorem dispatchConnector_grow (c : C) (rev : Nat) (hopen : ∀ k, c.chan = some
         · exact Grow.rfl' c
   · exact Grow.rfl' c
 
-theorem die_grow {c c1 : C} (e : Ev) (h : Grow c c1) : Grow c (die c1 e) :=
-  h.trans (by unfold die; grow_frame)
+theorem die_grow {c c1 : C} (e : Ev) (h : Grow c c1) (he : ∀ k, Ev.up k ≠ e := by intros; simp) : Grow c (die c1 e) :=
+  h.trans (by
+    unfold die
+    apply Grow.frame <;> first | rfl | (refine ⟨[], ?_, ?_⟩ <;> simp <;> done) | skip
+    · simp
+    · intro k hk
+      simp only [List.mem_append, List.mem_singleton] at hk
+      rcases hk with hk | hk
+      · exact hk
+      · exact absurd hk (he k))
+
+/-- `queueInLoop(connectDestroyed)` of a connection that was up at the beginning, after DOWN -/
+theorem Grow.enqueueCd {c c2 : C} (G : Grow c c2) (j : Nat) (xj : ConnRec) (hj : findIn c.conns j = some xj)
+    (hst : xj.st ≠ .disconnected) (cn : Option Nat) :
+    Grow c { c2 with connection := cn, pending := c2.pending ++ [.connectDestroyed j] } := by
+  refine ⟨G.tr, G.pend.trans (by simp), G.conn, G.alive, ?_, ?_, G.hsuf, ?_, G.upq⟩
+  · intro k x hx hxs t ht hh
+    simp only [List.mem_append, List.mem_singleton] at ht
+    rcases ht with ht | rfl
+    · exact G.hold k x hx hxs t ht hh
+    · have : j = k := by simpa [Task.holds] using hh
+      subst this; rw [hj] at hx; cases hx; exact absurd hxs hst
+  · intro ha h
+    simp only [List.mem_append, List.mem_singleton] at h
+    rcases h with h | h
+    · exact G.nostop ha h
+    · cases h
+  · intro rest hh hne
+    obtain ⟨k, u1, u2, u3, x, u4, u5⟩ := G.hup rest hh hne
+    exact ⟨k, u1, u2, by simp [u3], x, u4, u5⟩
 
 /-- DOWN of a connection that is up -/
 theorem handleClose_grow (c : C) (j : Nat) (xj : ConnRec) (hj : findIn c.conns j = some xj) (hst : xj.st ≠ .disconnected) :
     Grow c (handleClose c j) := by
-  have h1 : Grow c { c with conns := c.conns.map (updRec j goDown), trace := c.trace ++ [.down j], pending := c.pending ++ [.connectDestroyed j] } := by
-    refine ⟨by simp, by simp, ?_, rfl, ?_, by simp⟩
-    · intro k x hx
-      refine ⟨updRec j goDown x, ?_, ?_, ?_, ?_, ?_⟩
-      · show findIn (c.conns.map (updRec j goDown)) k = _
-        rw [findIn_upd j k goDown (fun _ => rfl), hx]; rfl
-      all_goals (unfold updRec goDown; split <;> simp)
-    · intro k x hx hxs t ht hh
-      simp only [List.mem_append, List.mem_singleton] at ht
-      rcases ht with ht | rfl
-      · exact ht
-      · have : j = k := by simpa [Task.holds] using hh
-        subst this; rw [hj] at hx; cases hx; exact absurd hxs hst
-  have h0 : Grow c { c with conns := c.conns.map (updRec j goDown), trace := c.trace ++ [.down j] } :=
-    ⟨h1.tr, List.prefix_refl _, h1.conn, rfl, fun _ _ _ _ _ ht _ => ht, id⟩
-  have h2 : Grow c { c with conns := c.conns.map (updRec j goDown), trace := c.trace ++ [.down j], connection := none, pending := c.pending ++ [.connectDestroyed j] } :=
-    ⟨h1.tr, h1.pend, h1.conn, h1.alive, h1.hold, h1.nostop⟩
-  unfold handleClose
+  have h0 : Grow c (downState c j) := by
+    refine Grow.quiet (by simp [downState]) (List.prefix_refl _) ?_ rfl (fun _ _ _ _ _ ht _ => ht) (fun _ => id) rfl
+      (by simp [downState])
+    intro k x hx
+    refine ⟨updRec j goDown x, ?_, ?_, ?_, ?_, ?_⟩
+    · show findIn (c.conns.map (updRec j goDown)) k = _
+      rw [findIn_upd j k goDown (fun _ => rfl), hx]; rfl
+    all_goals (unfold updRec goDown; split <;> simp)
+  have h2 := h0.trans (runHookDown_grow (downState c j) j)
+  rw [handleClose_eq]
   simp only
+  generalize runHookDown (downState c j) j = c2 at h2
   split
-  · exact h1
+  · exact h2
   · split
-    · exact die_grow _ h0
-    · split
-      · exact die_grow _ h0
+    · exact h2.enqueueCd j xj hj hst c2.connection
+    · unfold removeConn
+      simp only
+      split
+      · exact die_grow _ h2
       · split
-        · exact h2.trans (restart_grow _)
-        · exact h2
+        · exact die_grow _ h2
+        · split
+          · exact (h2.enqueueCd j xj hj hst none).trans (restart_grow _)
+          · exact h2.enqueueCd j xj hj hst none
 
 theorem handleRead_grow (c : C) (j : Nat) (xj : ConnRec) (hj : findIn c.conns j = some xj) (hst : xj.st ≠ .disconnected) :
     Grow c (handleRead c j) := by
@@ -263,8 +526,8 @@ theorem dispatchConn_grow (c : C) (r : List Task) (ph : Bool) (hi : Mid c r ph) 
         split
         · exact h1
         · have hoff : ((findConn (handleClose c j) j).map (·.chanOn)).getD false = false := by
-            rw [findConn_eq, handleClose_conns, findIn_upd j j goDown (fun _ => rfl), hx]
-            simp [updRec, (findIn_some hx).2, goDown]
+            rw [findConn_eq, handleClose_find c j x hx]
+            simp [goDown]
           rw [hoff, if_neg (by simp [MuduoVerif.Gen.Conn.dispReadSub])]
           exact h1
       · simp only [hdc, if_false]
@@ -306,8 +569,17 @@ theorem dispatch_grow (c : C) (s : Src) (hi : Mid c [] false) : Grow c (dispatch
       intro k hk
       obtain ⟨k', hk', hop⟩ := hi.a3 hon
       rw [hk] at hk'; cases hk'
-      rw [findIn_none_iff]; intro x hx he
-      have := hi.c1 x hx; rw [he, hop] at this; cases this
+      refine ⟨?_, ?_⟩
+      · rw [findIn_none_iff]; intro x hx he
+        have := hi.c1 x hx; rw [he, hop] at this; cases this
+      · -- the socket of the attempt in progress has not been reported UP
+        obtain ⟨s, hs, hr⟩ := hi.tr
+        have hcnt := (cnt_scan hs).up k
+        have hp : s.phases[k]? = some .opened := by rw [hr.ph k, phaseAt_opened hop]
+        intro hm
+        have := List.count_pos_iff.mpr hm
+        rw [hcnt] at this
+        simp [Spec.has, hp, b2n, Phase.wasUp] at this
     · unfold dispatchConnector
       rw [if_neg (by simp [hon])]
       exact Grow.rfl' c
@@ -327,7 +599,7 @@ theorem connectDestroyed_grow (c : C) (j : Nat) (x : ConnRec) (hx : findIn c.con
   rw [findConn_eq, hx]
   simp only
   rw [if_neg (by rw [hst]; simp), updConn_eq]
-  refine ⟨List.prefix_refl _, List.prefix_refl _, ?_, rfl, fun _ _ _ _ _ ht _ => ht, id⟩
+  refine Grow.quiet (List.prefix_refl _) (List.prefix_refl _) ?_ rfl (fun _ _ _ _ _ ht _ => ht) (fun _ => id) rfl (fun _ => id)
   intro k y hy
   refine ⟨updRec j chanOff y, ?_, ?_, ?_, ?_, ?_⟩
   · show findIn (c.conns.map (updRec j chanOff)) k = _
